@@ -183,7 +183,7 @@ impl Recorder {
             "probe": probe, "hasPreDiff": pre_diff.is_some(), "preDiff": pre_diff.unwrap_or(empty),
             "k": "ix", "name": ix.name, "args": ix.args, "slots": w.slots_json(ix),
             "ok": ex.ok(), "err": nu(ex.code as u128), "panic": ex.panic.is_some(), "rtv": ex.runtime_violation.is_some(),
-            "must": must, "now": nu(w.now as u128), "tag": tag,
+            "must": must, "now": nu(w.now as u128), "epoch": nu(crate::svm::epoch() as u128), "tag": tag,
             "logs": if ex.ok() { vec![] } else { ex.logs.iter().rev().take(4).rev().cloned().collect::<Vec<_>>() },
             "swaps": swaps, "events": evs, "diff": d, "prices": prices,
             "dual": dual.unwrap_or(json!({"present": false})), "routing": routing,
